@@ -25,9 +25,11 @@ import pipeline as P
 import registry as R
 
 VERIF = P.VERIF
-BUILD_ROOT = os.path.join(VERIF, ".build")
-EVIDENCE_DIR = os.path.join(VERIF, "evidence")
-REPLAY_DIR = os.path.join(VERIF, "replays")
+# MQV_OUT (self-validation only): keep build dirs, evidence and replays of a mutant run apart
+_OUT = os.environ.get("MQV_OUT")
+BUILD_ROOT = os.path.join(_OUT, "build") if _OUT else os.path.join(VERIF, ".build")
+EVIDENCE_DIR = os.path.join(_OUT, "evidence") if _OUT else os.path.join(VERIF, "evidence")
+REPLAY_DIR = os.path.join(_OUT, "replays") if _OUT else os.path.join(VERIF, "replays")
 KNOWN = os.path.join(VERIF, "KNOWN_FINDINGS.txt")
 
 
@@ -83,6 +85,9 @@ def build_replay(build_dir, metas, profile):
     main = open(os.path.join(src, "src/main.rs")).read().replace("        // @ARMS@", "\n".join(arms))
     open(os.path.join(src, "src/main.rs"), "w").write(main)
     cargo = open(os.path.join(src, "Cargo.toml")).read().replace("@VERIF@", VERIF)
+    if P.REPO != "/repo":
+        cargo = cargo.replace('path = "/repo"', 'path = "%s"' % P.REPO).replace(
+            'mq2_harness = { path = "%s/harness" }' % VERIF, 'mq2_harness = { path = "%s" }' % P.harness_dir_for(build_dir))
     open(os.path.join(src, "Cargo.toml"), "w").write(cargo)
     tdir = os.path.join(build_dir, "replay_target")
     cmd = ["cargo", "build", "--offline", "--target-dir", tdir]
